@@ -124,7 +124,8 @@ def guard_outcomes(fn: FunctionInfo, stop_at=None) -> list[tuple[str, str, bool,
     _CUR_FN[0] = fn
     for label, vals, required in SCENARIOS:
         v = Valuation(fn, path_atom, vals)
-        cfg = CFG(fn, oracle=v.truth)
+        from sa.constflow import refine
+        cfg = refine(fn, {}, oracle=v.truth)
         live = cfg.reachable([cfg.entry], follow=lambda a, b, lab: lab != "exc")
         returns = cfg.exit in live
         raises = any(n.kind == "stmt" and isinstance(n.ast, ast.Raise)
